@@ -285,7 +285,25 @@ func runC07(r *Report) {
 			}
 			return v
 		}
-		ok := upd != nil && rng != nil && len(dels) > 0 && !ReachesWithout(ua, upd, func(in ssa.Instruction) bool { return in == rng })
+		// the sweep runs on every path through the installation: before it, or after it (it spares the
+		// id being installed - obligation sweep-condition - so the order of the two does not matter)
+		ok := upd != nil && rng != nil && len(dels) > 0
+		if ok && ReachesWithout(ua, upd, func(in ssa.Instruction) bool { return in == rng }) {
+			for _, ret := range Returns(ua) {
+				hits := WalkFrom(nil, upd, func(in ssa.Instruction) int {
+					if in == rng {
+						return Stop
+					}
+					if in == ssa.Instruction(ret) {
+						return Hit
+					}
+					return Cont
+				}, nil)
+				if len(hits) > 0 {
+					ok = false
+				}
+			}
+		}
 		// the sweep removes exactly the OTHER keys of this connection: delete under `entry == conn` and
 		// `key != newID`
 		for _, d := range dels {
